@@ -58,7 +58,9 @@ def r_piece(p, xhtml, parent_tag):
         t = p["tok"]
         forms = [f'var s = "{t}";', f"if (a<b && c>d) {{ x('{t}'); }}", f'document.write("<p>{t}<\\/p>");', f"/* {t} */ var y = 1 < 2;",
                  f'var h = "<div class=\\"{t}\\">"; // <b>', f".{t} > p {{ color: red; }}", f'a[href^="<{t}>"]::after {{ content: "</style"; }}' if False else f"@media (min-width: 1px) {{ .{t} {{ x: y }} }}",
-                 f"<!-- {t} //-->"]
+                 f"<!-- {t} //-->",
+                 # a whole document written from script: the literal end tags of html/body inside removed content are not the end of the page
+                 f"document.write('<html><body>{t}</body></html>');", f'var page = "</body></html>"; var k = "{t}";']
         return forms[p["form"] % len(forms)]
     raise ValueError(k)
 
@@ -237,7 +239,7 @@ def docs(draw, max_nodes=7, rich=True):
 
     def piece(depth, parent):
         if parent in RAWTEXT:
-            return {"k": "js", "form": draw(st.integers(0, 7)), "tok": tok("X")}
+            return {"k": "js", "form": draw(st.integers(0, 9)), "tok": tok("X")}
         kinds = ["t", "t", "void", "void", "self", "cmt", "el"]
         if rich:
             kinds += ["open", "close", "cdata"]
